@@ -56,7 +56,7 @@ def parse_cmd(obj, path, content, dl, cm, py=False, jn=False):
 
 # ---------------------------------------------------------------- histories (5.6)
 import floatoracle as _fo
-SECTIONS = [None, b"", b"A", b"[A]", b"B", b"[B]", b"_none_", b"C c", b"[D", b"[A]b]", b"Ab", b"C", b"_none_2"]   # incl. names that are prefixes of other names
+SECTIONS = [None, b"", b"A", b"[A]", b"B", b"[B]", b"_none_", b"C c", b"[D", b"[A]b]", b"Ab", b"C", b"_none_2", b"Az", b"BY"]   # incl. names that are prefixes of other names
 KEYS = [b"k1", b"k2", b"k3", b"k4", b"key five"]
 BADKEYS = [None, b""]
 STRVALS = [b"v", b"", b"two words", b"Yes Please", b"-17", b"0x1F", b"077", b"1e3", b"true", b"NO", b"_none_",
@@ -106,7 +106,9 @@ def start_cmd(rng, o):
 
 START_FILES = [b"k1=file1\n[A]\nk2 = \"q v\" # c\nk1=a1\n[B]\nk3=3\n", b"k1=x\nk1=y\n[A]\n[E]\n[A]\nk4=Yes\n", b"# only a comment\n", b"",
                # sections only (no group-less key): the internal list of sections starts with a named one
-               b"[A]\nk1=a\n[B]\nk2=b\n", b"[B]\n[A]\nk1=1\nk2=2\nk3=3\nk4=4\n[C c]\nk1=c\n", b"[A]\n", b"[A]\nk1=1\n[A]\nk2=2\n"]
+               b"[A]\nk1=a\n[B]\nk2=b\n", b"[B]\n[A]\nk1=1\nk2=2\nk3=3\nk4=4\n[C c]\nk1=c\n", b"[A]\n", b"[A]\nk1=1\n[A]\nk2=2\n",
+               # keys without any value (stored as a missing value), sections whose names hash alike
+               b"k1\n\nk2\n[A]\nk3\n\nk4\n[B]\nk1\n", b"[Az]\nk1=a\n[BY]\nk1=b\nk2=c\n"]
 
 def start_cmds(rng, o):
     """like start_cmd, and also objects that are the result of a merge of two parsed files"""
